@@ -547,6 +547,15 @@ func (ls *Lockset) record(f *ssa.Function, fa *ssa.FieldAddr, kind string, at ss
 	base := Path(fa.X)
 	key := n.Obj().Name() + "." + fld.Name()
 	ctor := isFreshRoot(base) || (ls.ctorFn[f] && rootOf(base) == "recv")
+	// an object just returned by its constructor (feature := NewFeature(…); feature.operations = …) is still under
+	// construction in the function that builds the enclosing object: nobody else can hold it yet
+	if !ctor {
+		if c, isCall := fa.X.(*ssa.Call); isCall {
+			if callee := c.Call.StaticCallee(); callee != nil && ls.p.IsRepoFn(callee) && returnsFreshObject(callee) && f.Signature.Recv() == nil {
+				ctor = true
+			}
+		}
+	}
 	ls.Accesses[key] = append(ls.Accesses[key], Access{Fn: f, Ins: at, Kind: kind, Base: base, Field: fld, Owner: n.Obj().Name(), Locks: ls.At(at), Ctor: ctor})
 }
 
@@ -799,4 +808,32 @@ func (a Access) heldOnSameObject() map[string]held {
 		}
 	}
 	return res
+}
+
+// returnsFreshObject: every return of fn yields the address of a struct allocated in fn (a constructor).
+func returnsFreshObject(fn *ssa.Function) bool {
+	if fn.Blocks == nil || fn.Signature.Results().Len() != 1 {
+		return false
+	}
+	n := 0
+	for _, b := range fn.Blocks {
+		ret, ok := b.Instrs[len(b.Instrs)-1].(*ssa.Return)
+		if !ok {
+			continue
+		}
+		n++
+		v := ret.Results[0]
+		if ph, isPhi := v.(*ssa.Phi); isPhi {
+			for _, e := range ph.Edges {
+				if _, isAl := e.(*ssa.Alloc); !isAl {
+					return false
+				}
+			}
+			continue
+		}
+		if _, isAl := v.(*ssa.Alloc); !isAl {
+			return false
+		}
+	}
+	return n > 0
 }
